@@ -49,6 +49,22 @@ def _places(x, out):
             _places(v, out)
 
 
+def gate_fn(F):
+    """`ok_if(condition, fragment)`: the private function of policy::satisfy taking (bool, fragment) — by name, or, when it was
+    renamed, by that signature"""
+    f = F.fn("simplicity::policy::satisfy::ok_if")
+    if f is not None:
+        return f
+    out = []
+    for p_, g in F.fns.items():
+        if p_.startswith("simplicity::policy::satisfy::") and g.kind in ("Fn", "AssocFn") and g.arg_count == 2:
+            a1 = g.locals[1] if len(g.locals) > 1 else ""
+            a1 = a1 if isinstance(a1, str) else a1.get("ty", "")
+            if a1 == "bool":
+                out.append(g)
+    return out[0] if len(out) == 1 else None
+
+
 def run(ctx, rep):
     F = ctx.facts("full")
     rep.rule("C16.arms", "compile and satisfy use serialize::<fragment of the same name>, children in order")
@@ -57,6 +73,8 @@ def run(ctx, rep):
     rep.rule("C16.sort", "sort recurses in place into every composite child, then orders")
 
     # ---------- arms ----------
+    okif = gate_fn(F)
+    GATE_NAME = okif.name if okif is not None else "ok_if"
     builders = {}
     for name in ("serialize_no_witness", "satisfy_internal"):
         fs = [f for f in F.fns.values() if f.name == name and f.impl_adt == POLICY]
@@ -67,7 +85,7 @@ def run(ctx, rep):
     inlined_builders = {}
     for name, f in builders.items():
         # arms split into private methods (one per fragment) are spliced back in
-        f = F.inlined(f, tuple(set(FRAG.values())) + ("serialize_no_witness", "satisfy_internal", "ok_if", "hide"))
+        f = F.inlined(f, tuple(set(FRAG.values())) + ("serialize_no_witness", "satisfy_internal", GATE_NAME, "hide"))
         inlined_builders[name] = f
         T = Terms(f)
         sws = enum_switches(f, "policy::ast::Policy")
@@ -255,7 +273,9 @@ def run(ctx, rep):
     if len(srt) != 1:
         rep.anchor("C16.sort", "Policy::sort")
         return FINISH
-    f = srt[0]
+    # the pair logic may live in a private helper (sort_pair): splice it back in
+    f = F.inlined(srt[0], ("sort", "swap", "make_mut", "sort_unstable", "sort_by", "sort_by_key", "gt", "lt", "ge", "le", "cmp",
+                           "partial_cmp", "for_each", "map", "try_for_each", "iter_mut"))
     T = Terms(f, transparent=NO_CLONE)
     sws = enum_switches(f, "policy::ast::Policy")
     if not sws:
@@ -339,8 +359,8 @@ def run(ctx, rep):
 
     # ---------- satisfaction gates (necessary condition of 'succeeds exactly when the answers make it true') ----------
     rep.rule("C16.gate", "satisfy_internal: an unsatisfiable leaf is reported hidden; every leaf/or/threshold result is gated by ok_if on its condition")
-    GATE = {"Unsatisfiable": "hide", "Trivial": None, "Key": "ok_if", "After": "ok_if", "Older": "ok_if", "Sha256": "ok_if",
-            "And": None, "Or": "ok_if", "Threshold": "ok_if"}
+    GATE = {"Unsatisfiable": "hide", "Trivial": None, "Key": GATE_NAME, "After": GATE_NAME, "Older": GATE_NAME, "Sha256": GATE_NAME,
+            "And": None, "Or": GATE_NAME, "Threshold": GATE_NAME}
     si = inlined_builders.get("satisfy_internal")
     if si is not None:
         sws2 = enum_switches(si, "policy::ast::Policy")
@@ -362,7 +382,6 @@ def run(ctx, rep):
                 else:
                     rep.violation("C16.gate", v, "arm %s returns its fragment without %s: an unsatisfied %s is reported as satisfied"
                                   % (v, want, v.lower()), si.where())
-    okif = F.fn("simplicity::policy::satisfy::ok_if")
     if okif is None:
         rep.anchor("C16.gate", "policy::satisfy::ok_if")
     else:
